@@ -95,3 +95,17 @@ Theorem C12_to_dict_lists_active_decisions : forall q s sd vt b, wf s = true -> 
   to_dict (decision_points s) KT_id vt MC_subchoice false b = puts (decision_points s) KT_id vt (acts s [] sd) [].
 Proof. exact to_dict_acts. Qed.
 Print Assumptions C12_to_dict_lists_active_decisions.
+
+(* lookup in the dictionary view: under the id of every active decision point the view holds exactly the decision made
+   at that decision point's own position (index / "i/n" / literal / "i/n (literal)" per the value style; the float or
+   custom value).  [acts s [] sd] lists (address, decision) of the structured decision; key1 / leaf1 are the id of the
+   decision point at that address and the rendering of the decision.
+   MISSING: DNA.__getitem__ itself (value_type 'dna', 'both' keys, inactive decisions -> None, lookup by name): decided
+   by the correspondence (op 15) and the oracle only. *)
+Theorem C12_lookup_partial : forall q s sd vt b, wf s = true -> valid s sd = true -> vt <> VT_dna ->
+  ids_unique s -> bind q s (normalize sd) = Some b ->
+  forall e, In e (acts s [] sd) ->
+  dget (to_dict (decision_points s) KT_id vt MC_subchoice false b) (key1 (decision_points s) e)
+  = Some (DS (leaf1 (decision_points s) vt e)).
+Proof. intros q s sd vt b Hwf Hv Hvt Hid Hb. exact (to_dict_reports q s sd vt b Hwf Hv Hvt Hid Hb). Qed.
+Print Assumptions C12_lookup_partial.
